@@ -141,6 +141,7 @@ class RefServer:
         self.last = None         # (code, text) of the last status reply (for oracles)
         self.greeting_status = greeting_status
         self.closed = False
+        self.active_marker = b" ACTIVE"     # what follows the active script's name in a listing (dialects: see prop_C14)
         pool = [b'"NOTIFY" "mailto"', b'"LANGUAGE" "fr"', b'"OWNER" "user"', b'"MAXREDIRECTS" "5"', b'"UNAUTHENTICATE"', b'"XSASL" "PLAIN LOGIN"',
                 b'"X-STARTTLS"', b'"SIEVE2" "x"', b'"VERSIONS" "9"', b'"sasl2" "GSSAPI"']
         self.extra_caps = r.sample(pool, r.randint(0, 3)) if r.random() < 0.5 else []
@@ -318,7 +319,7 @@ class RefServer:
                     self.last_listing_literals.append(name)
                 else:
                     enc = quote(name) if can_quote(name) else literal(name)
-                out += enc + (b" ACTIVE" if name == self.active else b"") + b"\r\n"
+                out += enc + (self.active_marker if name == self.active else b"") + b"\r\n"
             return out + self.st(b"OK", None, b"Listscripts completed.")
         if verb == "GETSCRIPT" and len(strs) == 1 and len(args) == 1:
             if strs[0] not in self.scripts:
